@@ -461,9 +461,14 @@ func execA(t *testing.T, raw json.RawMessage) *sim.Outcome {
 			return o
 		}
 		if p.Mutation == "sig_bit" {
+			orig := append([]byte(nil), sig...)
 			sig[p.Pos%len(sig)] ^= byte(1 << (p.Val % 8))
 			if new(big.Int).SetBytes(sig).Cmp(rsaPriv.N) >= 0 {
 				sig[0] &= 0x3f
+			}
+			if string(sig) == string(orig) {
+				// bringing the value back below the modulus undid the change: alter the other end instead
+				sig[len(sig)-1] ^= 1
 			}
 			wellFormed = false
 		}
